@@ -12,11 +12,13 @@ import gen_toml as G
 
 PROP = "C02"
 COQ_PROPS = "Props/C02.v"
-COQ_PROPS_EXTRA = ["Props/C02tokens.v", "Props/C02doc.v", "Props/C02front.v", "Props/C02front2.v"]
-THEOREMS = ["C02_tree (Props/C02doc.v): for every accepted document and every valid derivation of its text the decoded tree is the tree the statements denote - keys, nesting, order, kinds, every scalar, exact decimals of floats, date-time fields; derivations agree",
+COQ_PROPS_EXTRA = ["Props/C02tokens.v", "Props/C02doc.v", "Props/C02front.v", "Props/C02front2.v", "Props/C02acc.v"]
+THEOREMS = ["Props/C02acc.v (25 theorems): the READ API of the decoded tree (Item / Value type_name, is_x, as_x, as_table_like, Item::get by key and index, Array::get, InlineTable::get, doc[k]; Model/Accessors.v from value.rs, item.rs, index.rs) reads that tree faithfully: kinds exclusive and exhaustive, every downcast answers exactly on its own kind with the stored scalar (C02acc_read_scalar), Item's duplicates are the value's own, type names = flags, lookups hand out what iteration hands out and never a placeholder, and on every accepted document doc[k] / Item::get(k) find every root entry (C02acc_parsed_root_lookup, through parse_WF)",
+            "C02_tree (Props/C02doc.v): for every accepted document and every valid derivation of its text the decoded tree is the tree the statements denote - keys, nesting, order, kinds, every scalar, exact decimals of floats, date-time fields; derivations agree",
             "Props/C02tokens.v: the value half of every token lemma (strings with all escapes, integers in four bases, floats as exact decimals, booleans, date-times); Props/C02front.v / C02front2.v: the toml::Value / Table front ends decode to the same data (names in coverage.theorem_names)"]
 RULE = ("valid abstract documents rendered in every spelling + per-spelling value tables; non-trivial = document with "
-        ">= 2 values or a value using a non-canonical spelling")
+        ">= 2 values or a value using a non-canonical spelling; 30% of the documents are also read through the public accessors only "
+        "(command acc: the tree rebuilt from as_x payloads must equal the reference decoding, flags / type names / lookups consistent)")
 ASSUMPTIONS = ["floats: the exact decimal is fixed by the model; the final rounding is compared against Python's correctly rounded float()"]
 
 
@@ -157,6 +159,10 @@ def gen_cases(rng, tier):
         out.append(Case("doc", [text], {"kind": "abstract", "expect": exp, "nvals": sum(1 for s in st if s[0] == "kv")}))
         if rng.random() < 0.25:
             out.append(Case("docv", [text], {"kind": "serde-value", "expect": exp}))
+        if rng.random() < 0.3:
+            # the same document read through the public accessors only (Item / Value type_name, is_x, as_x,
+            # Item::get by key and index, Array::get, InlineTable::get, doc["k"]); Model/Accessors.v
+            out.append(Case("acc", [text], {"kind": "accessors", "expect": exp, "nvals": sum(1 for s in st if s[0] == "kv")}))
     return out
 
 
@@ -186,6 +192,9 @@ def oracle(case, line):
         if got != exp:
             return "decoded tree differs from the reference decoding"
         return None
+    if case.cmd == "acc":
+        import accparse
+        return accparse.judge(line, exp)
     if case.cmd == "docv":
         if not line.startswith("ok "):
             return "valid document rejected by toml::from_str::<Value>"
